@@ -9,6 +9,7 @@ CONSTANTS
   DefaultCap = 2
   FinCaps <- MCFinCapsSmall
   MaxOps = 3
+  WordBits = 0
   Bug = "cap"
   MaxLog2 = 6
 VIEW View
